@@ -45,7 +45,13 @@ def extract_dtype(v, vops: list[Any]):
     is_real = isinstance(v, (ufl.classes.Real, ufl.classes.Imag))
     if is_real:
         return L.DataType.REAL
-    return L.merge_dtypes(dtypes)
+    dtype = L.merge_dtypes(dtypes)
+    if dtype == L.DataType.INT:
+        # A value of the integrand is a number, also when it is built from
+        # integer literals only: an `int` variable would turn a division it
+        # takes part in into C integer division (conditional(c, 3, 2) / 2)
+        return L.DataType.REAL
+    return dtype
 
 
 class IntegralGenerator:
